@@ -178,3 +178,47 @@ def features(src):
         if p["name"] in used:
             f |= p["features"]
     return f
+
+
+def systematic_sources(basic):
+    """A small enumerated scope of era-boundary x rule interactions (not random): hemisphere x kind of the following era x
+    STDOFF step x UNTIL form x AT suffix. Every element is one source object (one policy pair + one zone)."""
+    import itertools
+    out = []
+    hemis = {"N": (("Mar", "lastSun", "2:00", "1:00", "D"), ("Oct", "lastSun", "3:00", "0", "S")),
+             "S": (("Oct", "Sun>=1", "2:00", "1:00", "D"), ("Mar", "Sun>=15", "3:00", "0", "S"))}
+    nexts = ["-", "fixed", "same", "other"]
+    steps = [0, 60, -30] if not basic else [0, 60, -45]
+    forms = ["2009"] if basic else ["2009", "2009 Jul 15 3:00u", "2009 Dec 31 24:00", "2009 Jan 1 0:00s", "2009 Jul 1"]
+    sufs = ["", "s", "u"]
+    n = 0
+    for h, nx, step, form, suf in itertools.product(sorted(hemis), nexts, steps, forms, sufs):
+        if n % 3 != (0 if suf == "" else (1 if suf == "s" else 2)) and len(forms) > 1 and form not in ("2009",):
+            # thin out: not every suffix with every long UNTIL form
+            n += 1
+            continue
+        n += 1
+        a, b = hemis[h]
+        oh = "S" if h == "N" else "N"
+        pols = [{"name": "PA", "rules": [("Rule", "PA", 1985, "max", "-", a[0], a[1], a[2] + suf, a[3], a[4]),
+                                         ("Rule", "PA", 1985, "max", "-", b[0], b[1], b[2] + suf, b[3], b[4])],
+                 "features": set(), "multi": False}]
+        if nx == "other":
+            c, d = hemis[oh]
+            pols.append({"name": "PB", "rules": [("Rule", "PB", 1990, "max", "-", c[0], c[1], c[2], c[3], c[4]),
+                                                 ("Rule", "PB", 1990, "max", "-", d[0], d[1], d[2], d[3], d[4])],
+                         "features": set(), "multi": False})
+        off = 180 if h == "N" else -240
+        eras = [(hm(off + 7), "-", "LMT", "1980"), (hm(off), "PA", "A%sT", form)]
+        if nx == "-":
+            eras.append((hm(off + step), "-", "FIX"))
+        elif nx == "fixed":
+            eras.append((hm(off + step), "1:00", "FXD"))
+        elif nx == "same":
+            eras.append((hm(off + step), "PA", "B%sT"))
+        else:
+            eras.append((hm(off + step), "PB", "C%sT"))
+        eras = [e + ("",) * (4 - len(e)) for e in eras]
+        out.append({"policies": pols, "zones": [{"name": "Gen/Zone0", "eras": eras, "features": set()}], "links": [],
+                    "label": "%s/%s/%+d/%s/%s" % (h, nx, step, form, suf or "w")})
+    return out
